@@ -2,6 +2,7 @@ package reftls
 
 import (
 	"bytes"
+	"crypto/ecdh"
 	"encoding/binary"
 	"errors"
 	"fmt"
@@ -48,6 +49,9 @@ type Dev struct {
 	RecBody []byte
 	Fired   bool
 	Changed bool // the bytes on the wire differ from the honest ones (set when fired)
+	// InTranscript (DevInsertRecord carrying handshake messages): the scripted peer
+	// also hashes the inserted bytes, i.e. it is consistent about its extra message
+	InTranscript bool
 }
 
 // ErrAlert is returned when the peer sent a fatal alert or close_notify.
@@ -231,6 +235,15 @@ func (c *Conn) sendUnit(recType uint8, name string, plain []byte) error {
 		}
 		return c.rawWrite(c.recordBytes(recType, c.RecVers, plain, nil))
 	case DevInsertRecord:
+		if d.InTranscript && d.Typ == RecHandshake {
+			if recType == RecHandshake && len(c.Transcript) >= len(plain) && bytes.HasSuffix(c.Transcript, plain) {
+				// the unit itself is already in the transcript: put the insertion before it
+				t := append([]byte(nil), c.Transcript[:len(c.Transcript)-len(plain)]...)
+				c.Transcript = append(append(t, d.RecBody...), plain...)
+			} else {
+				c.Transcript = append(c.Transcript, d.RecBody...)
+			}
+		}
 		if err := c.rawWrite(c.recordBytes(d.Typ, c.RecVers, d.RecBody, nil)); err != nil {
 			return err
 		}
@@ -364,6 +377,20 @@ func (c *Conn) WriteHandshake(typ uint8, body []byte) error {
 	return c.sendUnit(RecHandshake, HsName(typ), wire)
 }
 
+// PreUnit carries out a hashed insertion (DevInsertRecord with InTranscript)
+// scheduled before the next unit right away, so that a Finished computed next
+// covers it.
+func (c *Conn) PreUnit() error {
+	d := c.devFor(c.sent)
+	if d == nil || d.Kind != DevInsertRecord || !d.InTranscript || d.Typ != RecHandshake {
+		return nil
+	}
+	d.Fired, d.Changed = true, true
+	c.Transcript = append(c.Transcript, d.RecBody...)
+	c.SentUnits = append(c.SentUnits, "inserted(hashed)")
+	return c.rawWrite(c.recordBytes(d.Typ, c.RecVers, d.RecBody, nil))
+}
+
 // WriteCCS sends ChangeCipherSpec (a unit) and leaves protection switching to
 // the caller.
 func (c *Conn) WriteCCS() error {
@@ -466,6 +493,13 @@ type ClientCfg struct {
 	CertVerifyRSA  *RSAKey  // TLS 1.2: sign CertificateVerify with this key instead of Cert.RSA
 	SkipSKXCheck   bool
 	NoSigAlgs      bool // TLS 1.2: do not send signature_algorithms
+	// NPN: offer next_protocol_negotiation (extension 13172); when the server's
+	// ServerHello carries it too, a NextProtocol message (type 67) naming NPNProto
+	// is sent between ChangeCipherSpec and Finished (a unit of its own)
+	NPN      bool
+	NPNProto string
+	Curves   []uint16 // supported_groups to offer (needed for the ECDHE suites)
+	NPNSkip  bool     // offer NPN but behave as if the server had not selected it (no NextProtocol, consistent transcript)
 	// IgnoreCertRequest: behave as if no CertificateRequest had been received (no
 	// Certificate message at all, no CertificateVerify), with a consistent transcript.
 	IgnoreCertRequest bool
@@ -487,6 +521,7 @@ type Result struct {
 	CVBody      []byte
 	Complete    bool
 	PeerFinOK   bool
+	NPN         bool // next protocol negotiation took place
 }
 
 func randBytes(r io.Reader, n int) []byte {
@@ -558,8 +593,14 @@ func ClientHandshake(c *Conn, cfg *ClientCfg) (*Result, error) {
 		ch.SessionID = randBytes(cfg.Rand, 16)
 	}
 	ch.Exts = append(ch.Exts, Ext{ExtSessionTicket, cfg.Ticket})
+	if cfg.NPN {
+		ch.Exts = append(ch.Exts, Ext{ExtNPN, nil})
+	}
 	if vers >= VersionTLS12 && !cfg.NoSigAlgs {
-		ch.Exts = append(ch.Exts, Ext{ExtSignatureAlgorithms, SigAlgsData(SigRSAPKCS1SHA256)})
+		ch.Exts = append(ch.Exts, Ext{ExtSignatureAlgorithms, SigAlgsData(SigRSAPKCS1SHA256, 0x0403, 0x0501, 0x0503)})
+	}
+	if len(cfg.Curves) > 0 {
+		ch.Exts = append(ch.Exts, Ext{ExtSupportedGroups, SupportedGroupsData(cfg.Curves...)}, Ext{ExtECPointFormats, []byte{1, 0}})
 	}
 	ch.Exts = append(ch.Exts, cfg.ExtraExts...)
 	res.CH = ch
@@ -583,6 +624,7 @@ func ClientHandshake(c *Conn, cfg *ClientCfg) (*Result, error) {
 		return res, fmt.Errorf("reftls client: server selected suite %04x", sh.Suite)
 	}
 	gm := Suite(sh.Suite).GM
+	ecdhe := Suite(sh.Suite).ECDHE
 	if !gm {
 		if sh.Vers != VersionTLS12 {
 			return res, fmt.Errorf("reftls client: server selected version %04x with a TLS 1.2 suite", sh.Vers)
@@ -611,6 +653,21 @@ func ClientHandshake(c *Conn, cfg *ClientCfg) (*Result, error) {
 		}
 		if !c.PlainFinished {
 			if err := c.switchKeys(res.Master, ch.Random, sh.Random, sh.Suite, true, true); err != nil {
+				return err
+			}
+		}
+		if err := c.PreUnit(); err != nil {
+			return err
+		}
+		if _, ok := FindExt(sh.Exts, ExtNPN); ok && cfg.NPN && !cfg.NPNSkip {
+			res.NPN = true
+			var w bld
+			w.vec8([]byte(cfg.NPNProto))
+			w.vec8(make([]byte, 32-(len(cfg.NPNProto)+2)%32))
+			if err := c.WriteHandshake(HsNextProtocol, w.b); err != nil {
+				return err
+			}
+			if err := c.PreUnit(); err != nil {
 				return err
 			}
 		}
@@ -663,6 +720,25 @@ func ClientHandshake(c *Conn, cfg *ClientCfg) (*Result, error) {
 	}
 	if !gm && len(res.ServerCerts) < 1 {
 		return res, errors.New("reftls client: empty server certificate list")
+	}
+	var ecParams *ECDHEParams
+	if ecdhe {
+		if m, err = c.ReadHandshake(); err != nil {
+			return res, err
+		}
+		if m.Type != HsServerKeyExchange {
+			return res, fmt.Errorf("reftls client: got %s, want ServerKeyExchange", HsName(m.Type))
+		}
+		if ecParams, err = ParseSKXECDHE(m.Body); err != nil {
+			return res, err
+		}
+		res.SKXSig = ecParams.Sig
+		if !cfg.SkipSKXCheck {
+			signed := append(append(append([]byte(nil), ch.Random...), sh.Random...), ecParams.Params...)
+			if checked, ok := VerifyTLS12Sig(res.ServerCerts[0], ecParams.SigAlg, signed, ecParams.Sig); checked && !ok {
+				return res, errors.New("reftls client: ECDHE ServerKeyExchange signature invalid")
+			}
+		}
 	}
 	if gm {
 		if m, err = c.ReadHandshake(); err != nil {
@@ -721,7 +797,16 @@ func ClientHandshake(c *Conn, cfg *ClientCfg) (*Result, error) {
 		pre = append([]byte{byte(vers >> 8), byte(vers)}, randBytes(cfg.Rand, 46)...)
 	}
 	var enc []byte
-	if gm {
+	if ecdhe {
+		k, err := ECDHEKey(ecParams.Curve, cfg.Rand)
+		if err != nil {
+			return res, err
+		}
+		if pre, err = ECDHEShared(k, ecParams.Point); err != nil {
+			return res, fmt.Errorf("reftls client: server ECDHE point: %v", err)
+		}
+		res.CKXBody = Vec8Body(k.PublicKey().Bytes())
+	} else if gm {
 		ep, err := PubFromCert(res.ServerCerts[1])
 		if err != nil {
 			return res, err
@@ -741,7 +826,9 @@ func ClientHandshake(c *Conn, cfg *ClientCfg) (*Result, error) {
 			return res, err
 		}
 	}
-	res.CKXBody = Vec16Body(enc)
+	if !ecdhe {
+		res.CKXBody = Vec16Body(enc)
+	}
 	if err := c.WriteHandshake(HsClientKeyExchange, res.CKXBody); err != nil {
 		return res, err
 	}
@@ -829,8 +916,14 @@ type ServerCfg struct {
 	ChooseSuite  uint16   // select this suite regardless of the offer
 	Vers         uint16
 	Compression  uint8
-	VerifyClient bool // verify CertificateVerify (honest server); result in Result.PeerFinOK
-	TLS12        bool // speak TLS 1.2 even when the selected suite is unknown to the reference
+	VerifyClient bool  // verify CertificateVerify (honest server); result in Result.PeerFinOK
+	TLS12        bool  // speak TLS 1.2 even when the selected suite is unknown to the reference
+	HelloExts    []Ext // extensions put into the ServerHello
+	// ECDHE suites: curve to use (0 = first implemented one the client lists), and
+	// deviations: named-curve id and point as sent (and signed)
+	ECDHECurve, ECDHEWireCurve uint16
+	ECDHEPoint                 []byte
+	SKXRSA                     *RSAKey // sign the ECDHE parameters with this key instead of Sign.RSA
 	// IgnoreClientFinished: an impostor without the pre-master cannot read the
 	// client's Finished; it skips one record and answers with its own Finished.
 	IgnoreClientFinished bool
@@ -882,7 +975,7 @@ func ServerHandshake(c *Conn, cfg *ServerCfg) (*Result, error) {
 	if vers >= 0x0300 {
 		c.RecVers = vers
 	}
-	sh := &ServerHello{Vers: vers, Random: randBytes(cfg.Rand, 32), SessionID: randBytes(cfg.Rand, 32), Suite: suite, Compression: cfg.Compression}
+	sh := &ServerHello{Vers: vers, Random: randBytes(cfg.Rand, 32), SessionID: randBytes(cfg.Rand, 32), Suite: suite, Compression: cfg.Compression, Exts: cfg.HelloExts}
 	res.SH = sh
 	res.Suite = suite
 	if err := c.WriteHandshake(HsServerHello, sh.Marshal()); err != nil {
@@ -900,6 +993,55 @@ func ServerHandshake(c *Conn, cfg *ServerCfg) (*Result, error) {
 	res.ServerCerts = list
 	if err := c.WriteHandshake(HsCertificate, MarshalCertificate(list)); err != nil {
 		return res, err
+	}
+	var ecKey *ecdh.PrivateKey
+	if d := Suite(suite); d != nil && d.ECDHE && !gm {
+		curve := cfg.ECDHECurve
+		if curve == 0 {
+			if g, ok := FindExt(ch.Exts, ExtSupportedGroups); ok && len(g) >= 2 {
+				for i := 2; i+1 < len(g) && curve == 0; i += 2 {
+					if id := uint16(g[i])<<8 | uint16(g[i+1]); curveByID(id) != nil {
+						curve = id
+					}
+				}
+			}
+			if curve == 0 {
+				curve = CurveP256
+			}
+		}
+		if ecKey, err = ECDHEKey(curve, cfg.Rand); err != nil {
+			return res, err
+		}
+		if !cfg.OmitSKX {
+			point := ecKey.PublicKey().Bytes()
+			if cfg.ECDHEPoint != nil {
+				point = cfg.ECDHEPoint
+			}
+			wireCurve := curve
+			if cfg.ECDHEWireCurve != 0 {
+				wireCurve = cfg.ECDHEWireCurve
+			}
+			cr, sr := ch.Random, sh.Random
+			if cfg.SKXRandoms[0] != nil {
+				cr, sr = cfg.SKXRandoms[0], cfg.SKXRandoms[1]
+			}
+			signed := append(append(append([]byte(nil), cr...), sr...), ECDHEParamBytes(wireCurve, point)...)
+			key := cfg.Sign.RSA
+			if cfg.SKXRSA != nil {
+				key = cfg.SKXRSA
+			}
+			body := cfg.SKXRaw
+			if body == nil {
+				if key == nil {
+					return res, errors.New("reftls server: no RSA key to sign the ECDHE parameters")
+				}
+				res.SKXSig = RSASignSHA256(key, signed)
+				body = MarshalSKXECDHE(wireCurve, point, SigRSAPKCS1SHA256, res.SKXSig)
+			}
+			if err := c.WriteHandshake(HsServerKeyExchange, body); err != nil {
+				return res, err
+			}
+		}
 	}
 	if !cfg.OmitSKX && gm {
 		sig := cfg.SKXRaw
@@ -959,12 +1101,21 @@ func ServerHandshake(c *Conn, cfg *ServerCfg) (*Result, error) {
 		return res, fmt.Errorf("reftls server: got %s, want ClientKeyExchange", HsName(m.Type))
 	}
 	res.CKXBody = m.Body
-	enc, err := ParseVec16Body(m.Body)
-	if err != nil {
+	var enc, pre []byte
+	if ecKey != nil {
+		pt, err := ParseVec8Body(m.Body)
+		if err != nil {
+			return res, err
+		}
+		if pre, err = ECDHEShared(ecKey, pt); err != nil {
+			c.WriteRecord(RecAlert, []byte{AlertFatal, AlertDecryptError})
+			return res, fmt.Errorf("reftls server: client ECDHE point: %v", err)
+		}
+	} else if enc, err = ParseVec16Body(m.Body); err != nil {
 		return res, err
 	}
-	var pre []byte
-	if !gm && cfg.Sign != nil && cfg.Sign.RSA != nil {
+	if ecKey != nil {
+	} else if !gm && cfg.Sign != nil && cfg.Sign.RSA != nil {
 		var ok bool
 		if pre, ok = RSADecrypt(cfg.Sign.RSA, enc); !ok || len(pre) != 48 {
 			c.WriteRecord(RecAlert, []byte{AlertFatal, AlertDecryptError})
@@ -1051,6 +1202,9 @@ func ServerHandshake(c *Conn, cfg *ServerCfg) (*Result, error) {
 		if err := c.switchKeys(res.Master, ch.Random, sh.Random, suite, false, true); err != nil {
 			return res, err
 		}
+	}
+	if err := c.PreUnit(); err != nil {
+		return res, err
 	}
 	if err := c.WriteHandshake(HsFinished, FinishedData(suite, res.Master, false, c.Transcript)); err != nil {
 		return res, err
